@@ -58,6 +58,12 @@ def gen_N(rng, kind):
         return talbot(rng.uniform(0.5, 0.98), 0.4 * 16.0 / (1.0 - np.log(x)), 1.0)
     if kind == "near_axis":
         return complex(rng.uniform(1.05, 12), 10 ** rng.uniform(-6, -1))
+    if kind == "integer_line":
+        # on / next to the lines Re N = 1,2,3,4 but away from the real axis: the guards that handle the
+        # special points N = 1, 2, ... must not reach out along the line (in either half plane)
+        k = float(rng.choice([1, 1, 1, 2, 2, 3, 4]))
+        d = float(rng.choice([0.0, 3e-6, -3e-6, 1e-9, -1e-9]))
+        return complex(k + d, 10 ** rng.uniform(-3, 1.5))
     return complex(rng.uniform(0.3, 25), rng.uniform(0.05, 40))
 
 
@@ -221,9 +227,9 @@ def run(ck):
         is_entry = modname in entry_mods
         npts = ck.n(3, 20) if slow else (ck.n(60, 1000) if is_entry else ck.n(30, 400))
         pts = []
-        kinds = ["contour_ns", "contour_s", "near_axis", "free"]
+        kinds = ["contour_ns", "contour_s", "near_axis", "free", "integer_line"]
         for i in range(npts):
-            kind = kinds[i % 4]
+            kind = kinds[i % 5]
             p = gen_params(rng, fn, slow and i % 3 == 0)
             if slow and is_entry:
                 p["mo"] = 3 if i < ck.n(2, 12) else 2
